@@ -97,14 +97,29 @@ def cart(phi, theta):
     return numpy.array([numpy.sin(theta) * numpy.cos(phi), numpy.sin(theta) * numpy.sin(phi), numpy.cos(theta)])
 
 
-def eval_terms(terms, frozen_mvn=None):
+def tn_logpdf(x, a, b, loc, scale):
+    """`truncnorm.logpdf(x, a, b, loc, scale)`; a point within rounding of an end of the support is
+    evaluated at that end (model arguments are exact, the code's are rounded: at the very end of
+    the support the two can fall on different sides).  Returns (value, at_boundary)."""
+    z = (x - loc) / scale
+    edge = False
+    for e in (a, b):
+        if abs(z - e) <= 1e-9 * max(1.0, abs(e)):
+            z, edge = e, True
+    return float(stats.truncnorm.logpdf(z, a, b) - numpy.log(scale)), edge
+
+
+def eval_terms(terms, frozen_mvn=None, flags=None):
     tot = 0.0
     for kind, a in terms:
         f = [float(v) for v in a]
         if kind == 'N':
             tot += stats.norm.logpdf(f[0], loc=f[1], scale=f[2])
         elif kind == 'T':
-            tot += stats.truncnorm.logpdf(f[0], f[1], f[2], loc=f[3], scale=f[4])
+            v, edge = tn_logpdf(*f)
+            if edge and flags is not None:
+                flags.append('edge')
+            tot += v
         elif kind == 'M':
             tot += float(frozen_mvn.logpdf(numpy.array(f)))
         elif kind == 'U':
@@ -198,11 +213,14 @@ class Suite:
             self.diverge(family, 'driver', line, ans, real)
             return
         mvn = getattr(p, '_proposal', None) if 'normal' in family and not getattr(p, 'isdiagonal', True) else None
-        val = eval_terms(parse_terms(ans), mvn)
+        flags = []
+        val = eval_terms(parse_terms(ans), mvn, flags)
         if len(self.samples) < 6 and self.rng.random() < 0.05:
             self.samples.append({'request': line[:200], 'model': ans[:200], 'real_logpdf': real})
         self.br('finite' if math.isfinite(real) else 'minus-inf')
-        if not close(val, real):
+        if flags and real == -math.inf:
+            self.br('point on the end of the support: code rounds it outside')
+        elif not close(val, real):
             self.diverge(family, 'logpdf', line, '%s => %r' % (ans, val), real)
         pdf = float(p.pdf(xi, given)) if given is not None else float(p.pdf(xi))
         if not close(pdf, math.exp(real) if real > -745 else 0.0, 1e-12) and not (pdf == 0.0 and real < -700):
@@ -243,8 +261,11 @@ class Suite:
         xd = numpy.linalg.norm([xi[k] - in1[k] for k in names])
         line = 'terms beigen s=%s width=%s mu=%s xi=%s' % (fr(p.eigvals[p._ind]), fr(width), fr(mu), fr(xd))
         t = self.drv.ask(line)
-        val = eval_terms(parse_terms(t))
-        if not close(val, real):
+        flags = []
+        val = eval_terms(parse_terms(t), None, flags)
+        if flags and real == -math.inf:
+            self.br('point on the end of the support: code rounds it outside')
+        elif not close(val, real):
             self.diverge(family, 'logpdf', line, '%s => %r' % (t, val), real)
 
     # ---- discrete families
@@ -256,6 +277,14 @@ class Suite:
             self.cov['shared_cache_instances' if shared else 'distinct_cache_instances'] += 1
         self.drv.ask('caches shared=%d' % (1 if shared else 0))
         return shared
+
+    def reset_caches(self, p):
+        """Model and object start from empty caches of the object's own sharing structure (an
+        adapted instance comes with whatever the chain's Hastings terms left in its caches)."""
+        n = len(p.parameters)
+        shared = self.new_caches(p)
+        p._cdfcache = [{}] * n if (shared or n == 1) else [{} for _ in range(n)]
+        p._cachedstd = [None] * n
 
     def query_discrete(self, family, p, xi, given, table):
         """`table`: library values already obtained for this instance: (key text, std text) -> value."""
@@ -485,18 +514,21 @@ def run_instance(S, family, p0, names, doms, kind, exhaustive):
         # same coordinates for every parameter as well: cache keys of different parameters coincide
         pool = Q.query_pool(family, p0, rng)[:2] + [(pts[0], pts[1]), (pts[-1], pts[-2]), (pts[1], pts[1])]
         alt = [numpy.array(p0._std)[::-1].copy(), numpy.array(p0._std) * 1.5]
-        ops = [('q', q) for q in pool[:3]] + [('s', a) for a in alt[:1]]
+        if exhaustive == 'full':
+            ops = [('q', q) for q in pool[:3]] + [('s', a) for a in alt]
+        else:
+            ops = [('q', q) for q in pool[:2]] + [('s', a) for a in alt[:1]]
         seqs = []
         if exhaustive:
             for L in range(1, 5):
                 seqs.extend(itertools.product(range(len(ops)), repeat=L))
         else:
-            for _ in range(24):
-                seqs.append(tuple(rng.randrange(len(ops) + 2) for _ in range(rng.randint(1, 4))))
-        allops = ops + [('q', pool[3]), ('q', pool[4])]
+            for _ in range(16):
+                seqs.append(tuple(rng.randrange(len(ops) + 3) for _ in range(rng.randint(1, 4))))
+        allops = ops + [('q', pool[2]), ('q', pool[3]), ('q', pool[4])]
         for seq in seqs:
             p = copy.deepcopy(p0)
-            S.new_caches(p)
+            S.reset_caches(p)
             table = {}
             S.cov['sequences'] += 1
             for oi in seq:
@@ -546,7 +578,7 @@ def run_adaptive_history(S, family, seed):
     S.cov['families'][family] = S.cov['families'].get(family, 0) + 1
     table = {}
     if family in Q.DISCRETE:
-        S.new_caches(prop)
+        S.reset_caches(prop)
     pool = None
     S.cov['sequences'] += 1
     for block in range(4):
@@ -556,9 +588,7 @@ def run_adaptive_history(S, family, seed):
         if family in Q.DISCRETE and not prop.symmetric:
             # the chain's own Hastings term queried the density during the steps: restart model and
             # object from empty caches of the same sharing structure
-            shared = S.new_caches(prop)
-            prop._cdfcache = [{}] * len(names) if (shared or len(names) == 1) else [{} for _ in names]
-            prop._cachedstd = [None] * len(names)
+            S.reset_caches(prop)
         if pool is None:
             pool = Q.query_pool(family, prop, rng)
         for q in [rng.choice(pool) for _ in range(4)]:
@@ -598,7 +628,8 @@ def run_suite(seed, tier):
                 p0, names, doms, kind_ = Q.build(family, rng, n, steps, ['AR', 'A', 'R', 'AAR'][j % 4],
                                                  None if j % 3 else 'off', seed=rng.randrange(1000),
                                                  same_bounds=same)
-                run_instance(S, family, p0, names, doms, kind_, exhaustive=(j == 1 or (not quick and j < 6)))
+                ex = (j == 1) if quick else ('full' if j in (1, 3) else j < 8)
+                run_instance(S, family, p0, names, doms, kind_, exhaustive=ex)
             if family in F.ADAPTIVE and family not in Q.EIGEN:
                 for j in range(2 if quick else 10):
                     run_adaptive_history(S, family, rng.randrange(1 << 30))
